@@ -27,13 +27,15 @@ def make(rng):
     for i in range(rng.randint(1, 2)):
         committers.append({'oid': 4 + i, 'n': rng.randint(1, 3), 'touch': rng.choice((None, 1, 2))})
     return {'init': init, 'packsec': packsec, 'gc': gc, 'committers': committers, 'reader': rng.randint(2, 6),
-            'second_packer': rng.random() < 0.3, 'third_packer': rng.random() < 0.15}
+            'second_packer': rng.random() < 0.3, 'third_packer': rng.random() < 0.15,
+            'lister': rng.choice((0, 0, 1, 2))}
 
 
 def run(job):
     scen, seed, workdir, kw = job
     from ZODB.FileStorage import FileStorage
     from ZODB.FileStorage.FileStorage import FileStorageError
+    from ZODB.POSException import UndoError
     from ZODB.serialize import referencesf
     sched.install()
     sched.S = None
@@ -124,6 +126,27 @@ def run(job):
                 except KeyError:
                     out['reads'].append((o, None, None))
                 Sc.yield_('reader')
+        def lister():
+            # a reader of the other kind: iteration, undo log, last invalidations (no loads)
+            for k in range(scen.get('lister', 0)):
+                tids = [rp.tids.model(t.tid) for t in st.iterator()]
+                if tids != sorted(tids) or len(set(tids)) != len(tids):
+                    raise AssertionError('iterator listed %r' % (tids,))
+                out['listed'].append(tids)
+                Sc.yield_('lister')
+                try:
+                    st.undoLog(0, 30)
+                except UndoError as ex:
+                    # the storage refuses the undo log while it is being packed, by design ("Undo is currently
+                    # disabled for database maintenance"): a refusal, not a failure
+                    if 'disabled for database maintenance' not in str(ex):
+                        raise
+                Sc.yield_('lister')
+                st.lastInvalidations(3)
+                Sc.yield_('lister')
+        out['listed'] = []
+        if scen.get('lister'):
+            Sc.spawn('lister', lister)
         Sc.spawn('packer', packer('packer'))
         for i, spec in enumerate(scen['committers']):
             Sc.spawn('committer%d' % i, committer(spec))
